@@ -45,6 +45,10 @@ func (a *Application) proxyHandler(w http.ResponseWriter, r *http.Request) {
 		return
 	}
 
+	if a.writeRoutingRejection(w, pr, endpoints) {
+		return
+	}
+
 	a.logRequestStart(pr, len(endpoints))
 
 	// Strip the route prefix before forwarding to the backend.
@@ -299,6 +303,34 @@ func (a *Application) buildLogFields(pr *proxyRequest, duration time.Duration) [
 	}
 
 	return fields
+}
+
+// writeRoutingRejection answers with the status the routing strategy decided on (404 when no
+// endpoint lists the model, 503 when only unhealthy ones do) and the routing headers. Without it
+// the empty endpoint list surfaces as a generic 502 from the proxy engine and the decision is lost.
+func (a *Application) writeRoutingRejection(w http.ResponseWriter, pr *proxyRequest, endpoints []*domain.Endpoint) bool {
+	if len(endpoints) > 0 || pr.profile == nil || pr.profile.RoutingDecision == nil {
+		return false
+	}
+
+	decision := pr.profile.RoutingDecision
+	if decision.Action != ports.RoutingActionRejected || decision.StatusCode < http.StatusBadRequest {
+		return false
+	}
+
+	pr.requestLogger.Warn("Request rejected by model routing",
+		"model", pr.model,
+		"strategy", decision.Strategy,
+		"reason", decision.Reason,
+		"status", decision.StatusCode)
+
+	w.Header().Set(constants.HeaderXOllaRoutingStrategy, decision.Strategy)
+	w.Header().Set(constants.HeaderXOllaRoutingDecision, decision.Action)
+	if decision.Reason != "" {
+		w.Header().Set(constants.HeaderXOllaRoutingReason, decision.Reason)
+	}
+	http.Error(w, fmt.Sprintf("Model routing rejected request: %s", decision.Reason), decision.StatusCode)
+	return true
 }
 
 func (a *Application) handleEndpointError(w http.ResponseWriter, pr *proxyRequest, err error) {
